@@ -82,7 +82,8 @@ def lean_sources():
     return res
 
 
-THM_RE = re.compile(r"^\s*(?:@\[[^\]]*\]\s*)?(?:private\s+|protected\s+)?theorem\s+([A-Za-z_][A-Za-z0-9_'.]*)", re.M)
+# property theorems (private helper lemmas inside a property file are not obligations and cannot be named from outside)
+THM_RE = re.compile(r"^\s*(?:@\[[^\]]*\]\s*)?(?:protected\s+)?theorem\s+([A-Za-z_][A-Za-z0-9_'.]*)", re.M)
 NS_RE = re.compile(r"^\s*namespace\s+([A-Za-z0-9_.]+)", re.M)
 
 
